@@ -57,7 +57,9 @@ def YDOT(x):
 
 
 def _opaque(t):
-    return isinstance(t, tuple) and bool(t) and t[0] in ("acc", "carried", "after", "unknown", "mutated")
+    # (a value handed back by a helper method that could not be expanded is built elsewhere, too)
+    return isinstance(t, tuple) and bool(t) and (t[0] in ("acc", "carried", "after", "unknown", "mutated")
+                                                 or (t[0] == "meth" and len(t) == 5 and t[1] in (("param", "self"), ("param", "cls")) and t[2] not in _ANCHORS))
 
 
 class OdeModel:
@@ -103,8 +105,12 @@ class OdeModel:
                 if callee is not None and callee is not self.func:
                     return callee, f_.value
             return None
-        func = inline_stmt_calls(_copy.deepcopy(self.func), _stmt_resolver)
-        self.flow = Flow(func, FILE, proc_resolver=_resolver, resolver=_pure_resolver)
+        # ... and a GENERATOR helper consumed by a for loop (`for t in self._terms(..): rhs[t.row] += ..`) is merged into that loop,
+        # the fields of the record it yields read as the values they were built from
+        from .normalize import inline_generator_loops
+        func = inline_generator_loops(_copy.deepcopy(self.func), _stmt_resolver)
+        func = inline_stmt_calls(func, _stmt_resolver)
+        self.flow = Flow(func, FILE, proc_resolver=_resolver, resolver=_pure_resolver, records=pkg.records())
         fl = self.flow
         self._expand_built_lists(fl)
         params = [a.arg for a in self.func.args.args if a.arg != "self"]
@@ -325,7 +331,7 @@ class OdeModel:
         if kind is None:
             # a loop that does walk the reactions / thermal processes, but in a form that is not understood, is "cannot analyse"
             lists = (self.REAC_FIELD, self.REAC, self.HEAT, self.COOL)
-            if outer is not None and any(x in lists for lp_ in f.loops for x in walk(simp(lp_.iter))):
+            if outer is not None and (any(x in lists for lp_ in f.loops for x in walk(simp(lp_.iter))) or contains(simp(outer.iter), _opaque)):
                 s.problems.append(("unrec", "loop-shape", f"store into {f.target} inside a loop over {show(simp(outer.iter))[:80]}: loop form not understood"))
             else:
                 s.problems.append(("viol", "unexpected-writer", f"store into {f.target} outside the reaction/thermal/modifier loops"))
